@@ -2,6 +2,7 @@
    Only statements closed by `exact`; the proofs live in Geom/GeomProofs.v and are about the
    definitions regenerated from /repo/cola/libavoid/geometry.{h,cpp} by tools/cpp2v.py. *)
 From Adapt Require Import Num.Qaux Geom.GeomSpec Geom.GeomSpecDec Gen.Geometry Geom.GeomProofs Geom.Symmetry.
+From Adapt Require Import Geom.LineSegTypes Geom.LineSegSpec Gen.LineSeg Geom.LineSegProofs.
 Local Open Scope Q_scope.
 
 Theorem C16_vecDir_spec a b c :
@@ -134,3 +135,51 @@ Proof.
         (conj (fun a b c => pointOnLine_translate a b c t) (fun P q cb => inPoly_translate P q cb t)))).
 Qed.
 Print Assumptions C16_translations.
+
+(* ---- C16 extension: linesegment::LineSegment::Intersect (cola/libvpsc/linesegment.h, regenerated into Gen/LineSeg.v)
+   and vpsc::Rectangle::lineIntersections built on it.  (LineSeg.PARALLEL = 0 is the enumerator of
+   LineSegment::IntersectResult, not libavoid's PARALLEL = 3 of Gen/Geometry.v.) *)
+Theorem C16_LineSegment_Intersect_eq_spec s o iv :
+  LineSegment_Intersect s o iv = spec_LineSegment_Intersect s o iv.
+Proof. exact (LineSegment_Intersect_eq_spec s o iv). Qed.
+Print Assumptions C16_LineSegment_Intersect_eq_spec.
+
+(* INTERSECTING <-> directions not parallel and the CLOSED segments share a point (ua, ub in [0,1]), and then the
+   out-parameter is that unique point; NOT_INTERSECTING <-> not parallel and no common point; COINCIDENT <-> parallel
+   directions and all four end points on one line; PARALLEL otherwise; out-parameter untouched unless INTERSECTING *)
+Theorem C16_LineSegment_Intersect_spec s o iv :
+  LineSegment_Intersect_meaning s o iv (LineSegment_Intersect s o iv).
+Proof. exact (LineSegment_Intersect_spec s o iv). Qed.
+Print Assumptions C16_LineSegment_Intersect_spec.
+
+Theorem C16_LineSegment_Intersect_symmetric s o iv iv' :
+  (fst (LineSegment_Intersect o s iv') = fst (LineSegment_Intersect s o iv) /\
+   (fst (LineSegment_Intersect s o iv) = INTERSECTING ->
+    pt_eq (snd (LineSegment_Intersect o s iv')) (snd (LineSegment_Intersect s o iv)))) /\
+  fst (LineSegment_Intersect (lseg_rev s) o iv) = fst (LineSegment_Intersect s o iv) /\
+  fst (LineSegment_Intersect s (lseg_rev o) iv) = fst (LineSegment_Intersect s o iv) /\
+  (fst (LineSegment_Intersect s o iv) = INTERSECTING ->
+   pt_eq (snd (LineSegment_Intersect (lseg_rev s) o iv)) (snd (LineSegment_Intersect s o iv)) /\
+   pt_eq (snd (LineSegment_Intersect s (lseg_rev o) iv)) (snd (LineSegment_Intersect s o iv))).
+Proof. exact (conj (LineSegment_Intersect_swap s o iv iv') (LineSegment_Intersect_reverse s o iv)). Qed.
+Print Assumptions C16_LineSegment_Intersect_symmetric.
+
+Theorem C16_LineSegment_Intersect_zero_length s o iv :
+  pt_eq (lbegin s) (lend s) \/ pt_eq (lbegin o) (lend o) ->
+  let code := fst (LineSegment_Intersect s o iv) in
+  (code = COINCIDENT \/ code = LineSeg.PARALLEL) /\
+  (code = COINCIDENT <-> on_common_line (lbegin s) (lend s) (lbegin o) (lend o)) /\
+  snd (LineSegment_Intersect s o iv) = iv.
+Proof. exact (LineSegment_Intersect_zero_length s o iv). Qed.
+Print Assumptions C16_LineSegment_Intersect_zero_length.
+
+Theorem C16_lineIntersections_flags x0 x1 y0 y1 l :
+  let code sd := fst (LineSegment_Intersect l (rect_side x0 x1 y0 y1 sd) pt0) in
+  let r := lineIntersections_model LineSegment_Intersect x0 x1 y0 y1 l ri0 in
+  ((exists sd, code sd = COINCIDENT) -> ri_intersects r = false /\ forall sd, ri_flag sd r = false) /\
+  ((forall sd, code sd <> COINCIDENT) ->
+     (forall sd, ri_flag sd r = Z.eqb (code sd) INTERSECTING) /\
+     ri_intersects r = Z.eqb (code STop) INTERSECTING || Z.eqb (code SBottom) INTERSECTING
+                       || Z.eqb (code SLeft) INTERSECTING || Z.eqb (code SRight) INTERSECTING).
+Proof. exact (lineIntersections_flags x0 x1 y0 y1 l). Qed.
+Print Assumptions C16_lineIntersections_flags.
